@@ -334,7 +334,9 @@ def project(cfg, res):
         e["comprange"] = bool(np.all(comp >= 0) and np.all(comp <= 1))
         mb = []
         for el in range(E):
-            clampd = bool(comp[el] == m.constraints.minComposition)
+            # the documented clamp: a NEGATIVE balance result is replaced by minComposition (nothing else may be overwritten)
+            raw = (float(x0[el]) - float(sumfc[el])) / (1 - sumfv) if sumfv < 1 else float("nan")
+            clampd = bool(comp[el] == m.constraints.minComposition and raw < 0)
             lhs = float(x0[el])
             rhs = (1 - sumfv) * float(comp[el]) + float(sumfc[el])
             mb.append({"cmp": cmp3(lhs, rhs, rtol=RTOL_MB, atol=1e-15), "clamped": clampd})
